@@ -13,6 +13,8 @@ CONSTANTS
   RestrictionsFirst = FALSE
   IgnoreNegation = FALSE
   PipeFirst = FALSE
+  FormatInKeyOrder = FALSE
+  KeyOrders <- OneKeyOrder
 SPECIFICATION Spec
 INVARIANT AllProps
 CHECK_DEADLOCK FALSE
